@@ -652,6 +652,10 @@ int disasm_68000(
           uint16_t ea_dst = (opcode >> 6) & 0x3f;
           ea_dst = (ea_dst >> 3) | ((ea_dst & 0x7) << 3);
 
+          // Size field 00 is not a move: those words are ori, subi, movep...
+          // whose table rows come after this one.
+          if (((opcode >> 12) & 3) == 0) { break; }
+
           if (is_ea_valid(&table_68000[n], opcode, 0) == 0) { break; }
           if (is_ea_valid(&table_68000[n], ea_dst, 1) == 0) { break; }
 
